@@ -32,6 +32,28 @@ func verifRecorder(h *Host) *core.Spec {
 	return s
 }
 
+func mdbTok(m map[string]interface{}) []interface{} {
+	x, have := m["to"]
+	if !have {
+		return []interface{}{"none"}
+	}
+	switch vv := x.(type) {
+	case string:
+		return []interface{}{"str", vv}
+	case []interface{}:
+		t := []interface{}{"list"}
+		for _, y := range vv {
+			if s, is := y.(string); is {
+				t = append(t, s)
+			} else {
+				t = append(t, "#nonstring")
+			}
+		}
+		return t
+	}
+	return []interface{}{"other"}
+}
+
 func TestVerifDriver(t *testing.T) {
 	if os.Getenv("VERIF_MODE") != "mdb-route" {
 		t.Skip("verif driver: VERIF_MODE not set")
@@ -69,20 +91,22 @@ func TestVerifDriver(t *testing.T) {
 		for i, k := 0, 1+rng.Intn(4); i < k; i++ {
 			seq++
 			m := map[string]interface{}{"m": "x" + strconv.Itoa(seq)}
-			desc := map[string]interface{}{"m": m["m"]}
-			switch rng.Intn(7) {
+			switch rng.Intn(9) {
 			case 0:
 			case 1:
 				m["to"] = float64(7)
-				desc["to"] = "#nonstring"
 			case 2:
-				m["to"], desc["to"] = "nobody", "nobody"
+				m["to"] = "nobody"
 			case 3:
-				m["to"], desc["to"] = "timers", "timers"
+				m["to"] = "timers"
+			case 4:
+				m["to"] = "*"
+			case 5:
+				m["to"] = []interface{}{"a", "c"}
 			default:
-				to := []string{"a", "b", "c"}[rng.Intn(3)]
-				m["to"], desc["to"] = to, to
+				m["to"] = []string{"a", "b", "c"}[rng.Intn(3)]
 			}
+			desc := map[string]interface{}{"m": m["m"], "tok": mdbTok(m)}
 			externals = append(externals, desc)
 			func() {
 				defer func() {
